@@ -270,6 +270,10 @@ def const_cases(draw, tier):
         expr = ["%s" % a, "-%s" % a, "%s*%s" % (num, a), "%s*%s/%s" % (num, a, b) if b not in ("zMin",) else "%s+%s" % (a, b),
                 "(%s+%s)*%s" % (a, b, num), "%s*2*pi" % a][kind]
         sym[k] = expr
+    if draw(st.integers(0, 2)) == 0:
+        # an explicitly given density normalisation (otherwise it is derived from the radial profile)
+        vals["CN0"] = draw(st.floats(0.05, 2.0).map(lambda x: round(x, 6)))
+        order.insert(draw(st.integers(0, len(order))), "CN0")
     spaces = draw(st.booleans())
     return {"order": order, "vals": vals, "sym": sym, "spaces": spaces, "perm2": list(draw(st.permutations(list(range(40))))),
             "P": draw(st.sampled_from([1, 2, 3])), "root": draw(st.integers(0, 2)), "schedule": draw(gen.schedules(6))}
